@@ -245,7 +245,7 @@ theorem reversed_deq (c : Co) (s : c.σ) (ys : List Val) (h : Deq c s ys) :
       rw [this]; exact a2
   · simpa using h
 
-theorem peekable_deq (c : Co) (s : c.σ) (ys : List Val) (h : Deq c s ys) :
+theorem peekable_deq (c : Co) (s : c.σ) (ys : List Val) (hb : c.bidir = true) (h : Deq c s ys) :
     Deq (peekableCo c) ⟨s, none, none⟩ ys := by
   apply deq_coind (peekableCo c)
     (fun (st : Peek c.σ) xs => st.front = none ∧ st.rear = none ∧ Deq c st.inner xs)
@@ -275,12 +275,12 @@ theorem peekable_deq (c : Co) (s : c.σ) (ys : List Val) (h : Deq c s ys) :
           · rfl
           · simp at b1
         subst hx
-        refine ⟨by simp [peekableCo, hr, ho, hf], ?_⟩
-        simp [peekableCo, hr, ho]
+        refine ⟨by simp [peekableCo, hb, hr, ho, hf], ?_⟩
+        simp [peekableCo, hb, hr, ho]
         exact b2
       | some v =>
-        refine ⟨by simp [peekableCo, hr, ho]; rw [← b1, ho], ?_⟩
-        simp [peekableCo, hr, ho]
+        refine ⟨by simp [peekableCo, hb, hr, ho]; rw [← b1, ho], ?_⟩
+        simp [peekableCo, hb, hr, ho]
         exact ⟨hf, b2⟩
   · exact ⟨rfl, rfl, h⟩
 
